@@ -188,6 +188,7 @@ pub fn child_main(ops: &[String], schedule: &[usize]) -> Value {
         // ---- wait for quiescence
         let mut futex_polls = vec![0u32; n];
         let wait_start = Instant::now();
+        let mut all_blocked_since: Option<Instant> = None;
         loop {
             let mut all_quiet = true;
             for id in 0..n {
@@ -223,6 +224,19 @@ pub fn child_main(ops: &[String], schedule: &[usize]) -> Value {
             }
             if all_quiet {
                 break;
+            }
+            // every live thread is blocked outside the harness and nobody is parked at a point:
+            // no thread can ever release another one -> deadlock (after a grace period)
+            let live: Vec<usize> = (0..n).filter(|&id| sh.state[id].load(Ordering::SeqCst) != ST_DONE).collect();
+            let all_blocked = !live.is_empty() && live.iter().all(|&id| sh.state[id].load(Ordering::SeqCst) == ST_RUNNING && blocked[id]);
+            if all_blocked {
+                let since = *all_blocked_since.get_or_insert_with(Instant::now);
+                if since.elapsed() > Duration::from_secs(3) {
+                    verdict = "deadlock".into();
+                    break 'outer;
+                }
+            } else {
+                all_blocked_since = None;
             }
             if wait_start.elapsed() > Duration::from_secs(15) || start.elapsed() > Duration::from_secs(60) {
                 // inconclusive (possibly an overloaded machine): the parent treats this as machinery, not as a verdict
